@@ -272,12 +272,21 @@ def work(task):
 def sequence_case(item, acc):
     """Several MakeBonds calls in ONE process with force fields that define the same block names differently:
     every call is judged on its own (no state may leak from one call to the next)."""
-    variants, knowledges, factor = item
-    for step, (variant, knowledge) in enumerate(zip(variants, knowledges)):
-        case = {'layer': 'sequence', 'variants': list(variants), 'knowledges': list(knowledges), 'factor': factor, 'step': step}
-        specs = pair_specs('C', 'C', factor, 'same-res', knowledge, 1.2)
+    variants, knowledges, factor = item[:3]
+    fudges = item[3] if len(item) > 3 else (1.2,) * len(variants)
+    for step, (variant, knowledge, fudge) in enumerate(zip(variants, knowledges, fudges)):
+        case = {'layer': 'sequence', 'variants': list(variants), 'knowledges': list(knowledges), 'factor': factor, 'step': step,
+                'fudges': list(fudges)}
+        # the geometry is fixed by the FIRST fudge factor of the sequence: later calls see the same distance
+        if len(item) > 3:
+            # H-C pair next to a distant Se: the pair search radius follows the largest radius present (Se), so the
+            # pair is examined by every call although the fudge factor differs
+            specs = pair_specs('H', 'C', factor, 'same-res', knowledge, fudges[0])
+            specs[0].append(dict(specs[0][1], tag='c', element='Se', atomname='A3', position=(5.0, 0.0, 0.0)))
+        else:
+            specs = pair_specs('C', 'C', factor, 'same-res', knowledge, fudges[0])
         before = len(acc.violations)
-        evaluate(specs, 1.2, 'both', [], case, acc, variant=variant)
+        evaluate(specs, fudge, 'both', [], case, acc, variant=variant)
         if len(acc.violations) > before:
             sig, desc, cs = acc.violations[-1]
             acc.violations[-1] = ('c10:call-sequence:' + sig.split(':', 1)[1],
@@ -291,6 +300,12 @@ def sequence_items():
             for knowledges in itertools.product(('bonded', 'non-bond'), repeat=length):
                 for factor in (1 - EPS, 1.5):
                     yield variants, knowledges, factor
+    # the fudge factor changes from call to call (the atoms stay where they are)
+    for length in (2, 3):
+        for fudges in itertools.permutations((0.8, 1.0, 1.2, 1.4), length):
+            for knowledge in ('res-unknown', 'non-bond'):
+                for factor in (1 - EPS, 1 + EPS):
+                    yield ('normal',) * length, (knowledge,) * length, factor, fudges
 
 
 # ----------------------------------------------------------------------------- system level
@@ -409,7 +424,10 @@ def replay(case):
     if case['layer'] == 'grid':
         grid_case((tuple(case['elements']), case['sides'][0], case['sides'][1], case['mode'], case['fudge'], case['split']), acc)
     elif case['layer'] == 'sequence':
-        sequence_case((tuple(case['variants']), tuple(case['knowledges']), case['factor']), acc)
+        item = (tuple(case['variants']), tuple(case['knowledges']), case['factor'])
+        if len(set(case.get('fudges') or [1.2])) > 1:
+            item += (tuple(case['fudges']),)
+        sequence_case(item, acc)
     elif case['layer'] == 'pairs':
         specs = pair_specs(case['e1'], case['e2'], case['factor'], case['relation'], case['knowledge'], case['fudge'])
         evaluate(specs, case['fudge'], case['mode'], [('a', 'b')] if case['pre'] else [], case, acc)
